@@ -116,7 +116,7 @@ func PricingText(p MPricing, denom string) string {
 				b.WriteString(",")
 			}
 			fmt.Fprintf(&b, `{"start_time":"%s","end_time":"%s","discount":"%s"}`,
-				realTime(t.S).Format(time.RFC3339), realTime(t.E).Format(time.RFC3339), fmtDiscount(t.D))
+				realTime(t.S).Format(time.RFC3339Nano), realTime(t.E).Format(time.RFC3339Nano), fmtDiscount(t.D))
 		}
 		b.WriteString("]")
 	}
